@@ -65,6 +65,37 @@ def confirm(d, run_tests=True):
     print(d, {k: res.get(k) for k in ("patch_applies", "demo_without_change_passes", "demo_with_change_fails", "tests_pass_with_change")})
 
 
+def check_scratch(d, tier="quick", props=None):
+    """like check, but against a scratch worktree of /repo (DLVERIF_REPO): /repo itself is not touched, so several of
+    these can run while /repo is being read by other checks; evidence and replays go to the scratch directory"""
+    meta, res, res_path = load(d)
+    pids = props or [meta["property"]]
+    base = f"/var/tmp/dlverif_seed_{os.getpid()}"
+    wt = os.path.join(base, "repo")
+    os.makedirs(base, exist_ok=True)
+    sh(["git", "-C", REPO, "worktree", "add", "-q", "--detach", wt, "HEAD"])
+    try:
+        shutil.copy(os.path.join(REPO, "src/decaylanguage/_version.py"), os.path.join(wt, "src/decaylanguage/_version.py"))
+        rc, out = sh(["git", "-C", wt, "apply", os.path.abspath(os.path.join(d, "patch.diff"))])
+        if rc != 0:
+            print("patch does not apply:", out)
+            return 2
+        env = dict(os.environ, DLVERIF_REPO=wt, PYTHONPATH=os.path.join(wt, "src"),
+                   DLVERIF_EVIDENCE_DIR=os.path.join(base, "evidence"), DLVERIF_REPLAY_DIR=os.path.join(base, "replays"))
+        for pid in pids:
+            t0 = time.time()
+            rc, out = sh([os.path.join(VERIF, "check"), pid, "--tier", tier], cwd=VERIF, env=env, timeout=7200)
+            lines = [l for l in out.splitlines() if l.startswith(("VIOLATION", "UNDECIDED", "CHECKER-ERROR", "KNOWN-FINDING")) or "!!" in l]
+            res.setdefault("checks", {})[pid] = dict(tier=tier, exit=rc, wall_s=round(time.time() - t0), lines=[l.replace(base + "/", "") for l in lines[:12]],
+                                                   detected=(rc == 1 and any(l.startswith("VIOLATION") for l in lines)))
+            print(d, pid, "exit", rc, "wall", round(time.time() - t0), *lines[:6], sep="\n   ")
+    finally:
+        sh(["git", "-C", REPO, "worktree", "remove", "--force", wt])
+        shutil.rmtree(base, ignore_errors=True)
+    json.dump(res, open(res_path, "w"), indent=1)
+    return 0
+
+
 def check(d, tier="quick", props=None):
     meta, res, res_path = load(d)
     pids = props or [meta["property"]]
@@ -94,7 +125,7 @@ if __name__ == "__main__":
     cmd, d = sys.argv[1], sys.argv[2]
     if cmd == "confirm":
         confirm(d, run_tests="--no-tests" not in sys.argv)
-    elif cmd == "check":
+    elif cmd in ("check", "check-scratch"):
         tier = sys.argv[3] if len(sys.argv) > 3 and not sys.argv[3].startswith("C") else "quick"
         props = [a for a in sys.argv[3:] if a.startswith("C")] or None
-        sys.exit(check(d, tier, props))
+        sys.exit((check if cmd == "check" else check_scratch)(d, tier, props))
